@@ -57,6 +57,11 @@ pub fn positions() -> Vec<(&'static str, Ty, Box<dyn Fn(Enc) -> Enc + Sync + Sen
         ("key.extra_value", Ty::Key, Box::new(|h| m(vec![(c(&u(1)), c(&u(1))), (c(&i(-1)), h)]))),
         ("claims.extra_value", Ty::Claims, Box::new(|h| m(vec![(c(&u(8)), h)]))),
         ("header.extra_nested_value", Ty::Header, Box::new(|h| m(vec![(c(&gen::t("x")), a(vec![m(vec![(h.clone(), h)])]))]))),
+        // keys inside a key set
+        ("keyset.key.key", Ty::KeySet, Box::new(|h| a(vec![m(vec![(c(&u(1)), c(&u(1)))]), m(vec![(c(&u(1)), c(&u(1))), (h, c(&b(b"\x01")))])]))),
+        ("keyset.key.kty", Ty::KeySet, Box::new(|h| a(vec![m(vec![(c(&u(1)), h)])]))),
+        ("keyset.key.alg", Ty::KeySet, Box::new(|h| a(vec![m(vec![(c(&u(1)), c(&u(1))), (c(&u(3)), h)])]))),
+        ("keyset.key.key_ops", Ty::KeySet, Box::new(|h| a(vec![m(vec![(c(&u(1)), c(&u(1))), (c(&u(4)), a(vec![h]))])]))),
         // inside a message
         ("sign1.protected.key", Ty::Sign1, Box::new(|h| {
             let inner = m(vec![(h, c(&u(1)))]).to_bytes();
@@ -112,6 +117,25 @@ pub fn explore(ex: &Ex) {
                         l.sample(|| json!({"space": "c15", "position": pname, "integer": v.to_string(), "hex": hex(&bytes)}));
                     }
                     ex.decode(l, "c15", *ty, Entry::Slice, &bytes);
+                }
+                if in_lattice && *pname == "header.key" {
+                    // the same header map at every carrier position (nested signers, recipients,
+                    // counter-signatures, KDF context ...): the out-of-range error must survive
+                    for (hp, hctx) in [("key", 0usize), ("alg", 1), ("crit", 2)] {
+                        let int = int_enc(*v, mw);
+                        let hm = match hctx {
+                            0 => m(vec![(int, c(&u(1)))]),
+                            1 => m(vec![(c(&u(1)), int)]),
+                            _ => m(vec![(c(&u(2)), a(vec![int]))]),
+                        }
+                        .to_bytes();
+                        for (cname, cty, cbytes) in crate::spaces::header_carriers(&hm, true) {
+                            l.state(1);
+                            l.count("c15.carrier_positions");
+                            let _ = (hp, cname);
+                            ex.decode(l, "c15.carriers", cty, Entry::Slice, &cbytes);
+                        }
+                    }
                 }
                 if in_lattice {
                     // bignum form: unspecified verdict, must not crash
